@@ -14,11 +14,50 @@ def setup():
 
 def cases(prop, seed, tier, shard, nshards, n=None):
     rng = random.Random(f'{seed}:{prop}:{tier}:{shard}')
+    if shard == 0:
+        yield dict(kind='repo_tests', features=['repository_test_suite_under_contract'])
     yield from MC.resolver_workload(rng, (n or SIZES[tier]) // nshards,
                                     max_heavy=(3, 6, 10, 16) if tier == 'quick' else (3, 6, 10, 16, 22))
 
 
+def run_repo_tests(prop):
+    """the repository's own 150 tests as an extra, human-written workload for the contract"""
+    import json
+    import os
+    import subprocess
+    import sys
+    import tempfile
+    from .. import env
+    fd, out = tempfile.mkstemp(prefix='vmon_pytest_', suffix='.json', dir=os.path.join(env.VERIF, '.work'))
+    os.close(fd)
+    envv = dict(os.environ)
+    envv['PYTHONPATH'] = os.pathsep.join([env.VERIF, env.DEPS, env.REPO])
+    envv['VMON_PYTEST_OUT'] = out
+    envv['PBR_VERSION'] = '0.0.0'
+    try:
+        p = subprocess.run([sys.executable, '-m', 'pytest', '-q', '-x', '-p', 'no:cacheprovider', '-p', 'vmon.pytest_plugin',
+                            os.path.join(env.REPO, 'cgsmiles', 'tests', 'test_molecule_resolve.py'),
+                            os.path.join(env.REPO, 'cgsmiles', 'tests', 'test_layering.py'),
+                            os.path.join(env.REPO, 'cgsmiles', 'tests', 'test_coordinates.py'),
+                            os.path.join(env.REPO, 'cgsmiles', 'tests', 'test_write_cgsmiles.py')],
+                           cwd=env.REPO, env=envv, capture_output=True, text=True, timeout=900)
+        with open(out) as fh:
+            data = json.load(fh)
+    except Exception as err:
+        return {'violations': [], 'rejected': {'repo_tests_not_runnable': 1}, 'nontrivial': False, 'cls': 'repo_tests',
+                'sample': f'repository tests under contract: not runnable ({type(err).__name__})'}
+    finally:
+        if os.path.exists(out):
+            os.unlink(out)
+    viol = [V(r['clause'], f"repository test {r.get('test')} :: {r['msg']}") for r in data['records'] if r['prop'] in (prop, 'HARNESS')]
+    n = int(data['stats'].get('resolve_calls', 0))
+    return {'violations': viol, 'evaluations': max(1, n), 'counters': {'resolve_calls_observed': n, 'repo_test_resolve_calls': n},
+            'nontrivial': True, 'cls': 'repo_tests', 'sample': 'repository test-suite (resolver, layering, coordinates, writer tests) under the post-state contract'}
+
+
 def run(prop, case, exception_is_violation=False):
+    if case['kind'] == 'repo_tests':
+        return run_repo_tests(prop)
     contracts.clear()
     before = contracts.STATS['resolve_calls']
     res = MC.execute(case)
